@@ -2,7 +2,7 @@ import MJ.Model.SafeProg
 /-! Line driver for C02.  Input line: `<id>\t<step>|<step>|…` with steps
 
   D <cps>            data string            R <cps>     template text
-  I <n>  B <0|1>  N  U                      L <i,j,…|->  list of registers
+  I <n>  B <0|1>  N  U                      L <i,j,…|->  list of registers      K <key>=<i>,…  map of registers
   E <m> <i>          emit register i in mode m ∈ {h,n,j}
   BC  EC <m>  MR <m> begin capture / end capture / macro return
   A <name> <m> <i,j,…|-> <p,q,…|->   apply the named operator/filter model to registers, numeric parameters
@@ -35,6 +35,13 @@ def parseStep (s : String) : Except String Step :=
   | ["N"] => .ok .none
   | ["U"] => .ok .undef
   | ["L", is] => match parseNats is with | some x => .ok (.mkSeq x) | none => .error "L"
+  | ["K", kis] =>
+    if kis = "-" then .ok (.mkMap []) else
+      match (kis.splitOn ",").mapM (fun (kv : String) => match kv.splitOn "=" with
+        | [k, i] => (parseCps k).bind fun k => i.toNat?.map fun i => (k, i)
+        | _ => none) with
+      | some x => .ok (.mkMap x)
+      | none => .error "K"
   | ["E", m, i] => match parseMode m, i.toNat? with | some m, some i => .ok (.emit m i) | _, _ => .error "E"
   | ["BC"] => .ok .beginCapture
   | ["EC", m] => match parseMode m with | some m => .ok (.endCapture m) | none => .error "EC"
@@ -66,6 +73,8 @@ def className : Class → String
   | .forward => "forward"
   | .normal => "normal"
   | .mapped => "mapped"
+  | .pieces => "pieces"
+  | .select => "select"
   | .markup => "markup"
   | .unbuilt c => "unbuilt:" ++ c
 
@@ -85,7 +94,7 @@ def failingStep : List Step → St → Nat → Nat
            (for v e <0|1> (body stmt…) (else stmt…)) (if e (then stmt…) (else stmt…)) (with n e stmt…)
            (callblock m (args e…) stmt…) (include name) (block name stmt…) (auto tru|fals|<s> stmt…)
   expr  := (var n) (lit s) (int i) (bool b) (none) (cat a b) (add a b) (mul a n) (filt name (ps p…) e…)
-           (index a k) (slice a x y) (attr a key) (list e…) (dict (key e)…) (call m e…) (caller) (super)
+           (meth name (ps p…) recv e…) (index a k) (slice a x y) (attr a key) (list e…) (dict (key e)…) (call m e…) (caller) (super)
            (looprec e) (loopindex) (loopfirst) (not e) (cond c a b)
   ctx   := (ctx (name cv)…)   cv := (s str) (i n) (b 0|1) (n) (l cv…) (m (key cv)…)
   all names and strings are code-point lists as above -/
@@ -132,6 +141,8 @@ partial def toExpr : Sexp → Option Expr
   | .list [.atom "mul", a, n] => do some (.mul (← toExpr a) (← sNat n))
   | .list (.atom "filt" :: name :: .list (.atom "ps" :: ps) :: args) => do
     some (.filt (← sStr name) (← ps.mapM sNat) (← args.mapM toExpr))
+  | .list (.atom "meth" :: name :: .list (.atom "ps" :: ps) :: args) => do
+    some (.meth (← sStr name) (← ps.mapM sNat) (← args.mapM toExpr))
   | .list [.atom "index", a, k] => do some (.index (← toExpr a) (← sNat k))
   | .list [.atom "slice", a, x, y] => do some (.slice (← toExpr a) (← sNat x) (← sNat y))
   | .list [.atom "attr", a, k] => do some (.attr (← toExpr a) (← sStr k))
